@@ -4,6 +4,7 @@ C01 (each terminal = its PEG denotation over rest(ctx, off)), C03, C17 (leaf con
 ANY node, the actual spelling of an insensitive match, the kind of NEWLINE, span text of skip nodes)."""
 import re
 import _prelude as P
+from input import UTF8
 
 SEM = r'''
 pub open spec fn sem_str<'i>(s: Seq<u8>, c: Ctx<'i>, pos: nat, st: Seq<Span<'i>>) -> Res<'i> {
@@ -65,11 +66,14 @@ def build(U):
     U.use('core::marker::PhantomData')
     U.use('core::ops::Range')
     U.use('vstd::std_specs::convert::*')
+    U.use('vstd::std_specs::iter::*')
+    U.use('core::str::Chars')
     F = 'main/src/predefined_node/mod.rs'
     U.ghost(P.CORE, 'core vocabulary')
     U.ghost(P.input_trait_decl(['span', 'at_start', 'at_end', 'match_string', 'match_insensitive', 'skip_until', 'skip', 'match_range', 'match_char_by', 'next']), 'trait Input (contracts only)')
     U.ghost(P.TRAITS, 'trait contracts')
     U.ghost(SEM, 'denotations of terminals')
+    U.ghost(UTF8, 'UTF-8 lemmas (proved; same text as in unit input)')
     U.ghost('''impl<'i> Span<'i> {
     #[verifier::external_body]
     pub fn as_str(&self) -> (r: &'i str)
@@ -101,31 +105,22 @@ def build(U):
     # ---- CharRange / ANY: content is the first scalar of the remaining input -------------------------------------------
     struct(U, 'CharRange')
     im = U.impl(F, "TypedNode<'i, R> for CharRange<MIN, MAX>").drop_attrs()
-    im.rw('R3', 'span.as_str().chars().next().unwrap()', 'shim_first_char(span.as_str()).unwrap()')
     im.prepend_in_block(P.semdef("sem_range(MIN, MAX, c, pos, st)", "Some(n.content) == first_char(rest(c, pos))"))
     im.body_start('''        proof {
             let r = rest(input.ctx(), input.off());
-            lemma_first_char_prefix(r);
+            lemma_str_valid(input.ctx().input);
+            lemma_sub_boundary(bytes_of(input.ctx()), input.off() as int, input.ctx().end as int, 0);
+            lemma_first_char(r);
             match first_char(r) {
-                Some(ch) => { if char_len(ch) <= r.len() {
-                    assert(r.subrange(0, char_len(ch) as int) =~= bytes_of(input.ctx()).subrange(input.off() as int, (input.off() + char_len(ch)) as int)); } }
+                Some(c) => {
+                    lemma_encode_single(c);
+                    encode_utf8_decode_utf8(seq![c]);
+                    assert(r.subrange(0, char_len(c) as int) =~= bytes_of(input.ctx()).subrange(input.off() as int, (input.off() + char_len(c)) as int));
+                }
                 None => {}
             }
+            assert forall|s: &str| decode_utf8(#[trigger] s.spec_bytes()) == s@ by { lemma_str_chars(s); }
         }''', fname='try_parse_partial_with')
-    U.ghost(r'''
-#[verifier::external_body]
-fn shim_first_char(s: &str) -> (r: Option<char>)
-    ensures r == first_char(s.spec_bytes()),
-            r is None <==> s.spec_bytes().len() == 0,
-{ s.chars().next() }
-// the first scalar of b is the first scalar of every prefix of b that contains its encoding
-pub proof fn lemma_first_char_prefix(b: Seq<u8>)
-    ensures match first_char(b) {
-        Some(c) => char_len(c) <= b.len() && first_char(b.subrange(0, char_len(c) as int)) == Some(c),
-        None => true },
-{
-    admit();
-}''', 'first-char shim and lemma')
     U.emit(im)
 
     struct(U, 'ANY')
